@@ -771,7 +771,9 @@ def r_wrap(ctx) -> RuleResult:
         raise AnalysisError("R-WRAP: reader has no continuation-line splicer")
     sp = sm["func"]
     r_prefix, r_cont = set(sm["prefixes"]), set(sm["conts"])
-    ok = len(prefixes) == 1 and prefixes == r_prefix
+    # the reader's tests may leave out trailing blanks of the prefix (every line the writer emits has them anyway)
+    wp = next(iter(prefixes)) if len(prefixes) == 1 else None
+    ok = wp is not None and bool(r_prefix) and all(wp.startswith(rp) and rp.rstrip() == wp.rstrip() and rp.strip() for rp in r_prefix)
     res.inst(f"{wh.fq} vs {sp.fq}", f"line prefix {sorted(prefixes)} / {sorted(r_prefix)}", "ok" if ok else "fail")
     if not ok:
         res.fail(Finding("R-WRAP", wh.module.rel, wh.qualname, f"prefix {sorted(prefixes)} vs reader {sorted(r_prefix)}", "writer and reader disagree on the V3000 line prefix", line=wh.node.lineno))
@@ -780,7 +782,7 @@ def r_wrap(ctx) -> RuleResult:
     if not ok:
         res.fail(Finding("R-WRAP", wh.module.rel, wh.qualname, f"continuation {sorted(conts)} vs reader {sorted(r_cont)}", "writer and reader disagree on the continuation character", line=wh.node.lineno))
     # reader strips: curr_line[0:-len(cont)] + next_line[len(prefix):]
-    plen = len(next(iter(r_prefix))) if r_prefix else None
+    plen = len(wp) if wp is not None else (len(next(iter(r_prefix))) if r_prefix else None)
     clen = len(next(iter(r_cont))) if r_cont else None
     ok = sm["drop_end"] == clen and sm["drop_start"] == plen
     res.inst(sp.fq, "splice = current[0:-1] + next[len(prefix):]", "ok" if ok else "fail", detail=f"prefix length {plen}")
@@ -1060,6 +1062,39 @@ class _Sentinel:
         return f"<{self.tag}>"
 
 
+def option_default(ctx, fi: FuncInfo, name: str, depth=0):
+    """the constant that parameter `name` of fi has when the public function is called without the option: its own default if
+    nobody inside tucan calls fi, else what every caller inside tucan passes (a constant, or its own parameter resolved the
+    same way); None if that is not one constant"""
+    ps = params_of(fi.node)
+    if name not in ps or depth > 4:
+        return None
+    a = fi.node.args
+    pos = [x.arg for x in a.args]
+    own = None
+    if name in pos:
+        k = pos.index(name) - (len(pos) - len(a.defaults))
+        if k >= 0 and isinstance(a.defaults[k], ast.Constant):
+            own = a.defaults[k].value
+    callers = [cs for cs in ctx.cg.callers_of(fi.fq) if cs.caller.module.name.startswith("tucan") and not cs.caller.module.name.startswith("tucan.test")]
+    if not callers:
+        return own
+    vals = set()
+    off = 1 if fi.cls is not None and pos and pos[0] in ("self", "cls") else 0
+    for cs in callers:
+        idx = pos.index(name) - off
+        arg = cs.node.args[idx] if 0 <= idx < len(cs.node.args) else next((k_.value for k_ in cs.node.keywords if k_.arg == name), None)
+        if arg is None:
+            vals.add(own)
+        elif isinstance(arg, ast.Constant):
+            vals.add(arg.value)
+        elif isinstance(arg, ast.Name):
+            vals.add(option_default(ctx, cs.caller, arg.id, depth + 1))
+        else:
+            return None
+    return next(iter(vals)) if len(vals) == 1 else None
+
+
 def hole_roles(ctx, fi: FuncInfo, e: ast.expr, depth=0, seen=None) -> set:
     """what a formatted expression of a line template stands for, followed through the local definitions of the names in
     it: 'attr:<key>' (an attribute of the atom / bond read with a constant key), 'label+k' (a node label plus k),
@@ -1082,6 +1117,15 @@ def hole_roles(ctx, fi: FuncInfo, e: ast.expr, depth=0, seen=None) -> set:
     if isinstance(e, ast.Constant):
         return {"const"}
     if isinstance(e, ast.IfExp):
+        # a choice made by an option of the public function (calc_coordinates): what is written by default is what the
+        # option's default selects
+        t, neg = e.test, False
+        while isinstance(t, ast.UnaryOp) and isinstance(t.op, ast.Not):
+            t, neg = t.operand, not neg
+        if isinstance(t, ast.Name):
+            dv = option_default(ctx, fi, t.id)
+            if isinstance(dv, bool):
+                return hole_roles(ctx, fi, e.body if dv != neg else e.orelse, depth + 1, seen)
         return hole_roles(ctx, fi, e.body, depth + 1, seen) | hole_roles(ctx, fi, e.orelse, depth + 1, seen)
     if isinstance(e, ast.NamedExpr):
         return hole_roles(ctx, fi, e.value, depth + 1, seen)
@@ -1118,10 +1162,11 @@ def hole_roles(ctx, fi: FuncInfo, e: ast.expr, depth=0, seen=None) -> set:
             out.add("label+0")
         if "endpoint" in src:
             out.add("label+0")
-        if "pos1" in src:
-            out.add("pos+1")
-        if "pos0" in src:
-            out.add("pos+0")
+        for s_ in src:
+            if s_.startswith("pos") and s_[3:].lstrip("-").isdigit():
+                out.add(f"pos+{int(s_[3:])}")
+            elif s_ == "pos?":
+                out.add("pos+?")
         for d in assigned_names(fn).get(e.id, []):
             v = getattr(d, "value", None)
             if v is not None and isinstance(d, (ast.Assign, ast.AnnAssign, ast.NamedExpr)):
@@ -1174,7 +1219,7 @@ def hole_sources(ctx, fi: FuncInfo, name: str) -> set:
                 st_ = next((k.value for k in it.keywords if k.arg == "start"), it.args[1] if len(it.args) > 1 else None)
                 start = try_const(ctx, fi, st_) if st_ is not None else 0
                 if isinstance(tg.elts[0], ast.Name) and tg.elts[0].id == name:
-                    out.add("pos1" if start == 1 else "pos0")
+                    out.add(f"pos{start}" if isinstance(start, int) else "pos?")
                 inner_tg, inner_it = tg.elts[1], it.args[0]
             base = inner_it
             while isinstance(base, ast.Call) and isinstance(base.func, ast.Name) and base.func.id in ("sorted", "list", "tuple", "reversed") and base.args:
@@ -1264,6 +1309,7 @@ def r_fields(ctx) -> RuleResult:
     # ---- atom line
     fi, t, toks = atom_t
     pos = {name: None for name in ("index", "symbol", "x", "y", "z")}
+    const_z = None
     for i, tok in enumerate(toks):
         p = i + prefix_tokens
         low = tok.lower()
@@ -1273,12 +1319,19 @@ def r_fields(ctx) -> RuleResult:
             pos["x"] = p
         elif "attr:y_coord" in low:
             pos["y"] = p
-        elif "attr:z_coord" in low or (low.startswith("<const") and pos["x"] is not None and pos["y"] is not None and pos["z"] is None):
+        elif "attr:z_coord" in low:
             pos["z"] = p
+        elif low.startswith("<const") and pos["x"] is not None and pos["y"] is not None and pos["z"] is None and p == pos["y"] + 1:
+            const_z = (p, tok)
         elif "label+" in low and pos["index"] is None:
             pos["index"] = p
     checks = [("symbol", reader_pos["element_symbol"]), ("x", reader_pos["x"]), ("y", reader_pos["y"]), ("z", reader_pos["z"])]
     unnamed = [tok for tok in toks if tok.startswith("<") and "attr:" not in tok.lower() and "label+" not in tok.lower() and "const" not in tok.lower() and "count:" not in tok.lower()]
+    if pos["z"] is None and const_z is not None:
+        res.inst(fi.fq, f"atom line: z is token {const_z[0]}", "fail", detail="a constant")
+        res.fail(Finding("R-FIELDS", fi.module.rel, fi.qualname, norm(t), f"atom line: the third coordinate (token {const_z[0]}) is written as a constant when the function is called without options: "
+                         "the atom's z coordinate is not in the file, so reading it back gives another molecule drawing", line=t.lineno))
+        pos["z"] = const_z[0]
     for name, want in checks:
         if pos[name] is None and unnamed:
             raise AnalysisError(f"R-FIELDS: atom line `{short(t, 70)}`: cannot tell which of the values {unnamed[:4]} is {name} (what they stand for is not followed back to an attribute)")
@@ -1308,6 +1361,13 @@ def r_fields(ctx) -> RuleResult:
     res.inst(fi.fq, f"bond line: type is token {bt}; reader reads {sorted(bond_type_pos)}", "ok" if ok else "fail")
     if not ok:
         res.fail(Finding("R-FIELDS", fi.module.rel, fi.qualname, norm(t), f"bond line: bond type at token {bt}, reader reads token {sorted(bond_type_pos)}", line=t.lineno))
+    # the bond's own number: the first field, counting from 1
+    first = toks[0] if toks else ""
+    if first.startswith("<") and "pos+" in first:
+        ok = "pos+1" in first and not any(f"pos+{k_}" in first for k_ in ("0", "2", "?", "-"))
+        res.inst(fi.fq, f"bond line: the bond number {first} counts from 1", "ok" if ok else "fail")
+        if not ok:
+            res.fail(Finding("R-FIELDS", fi.module.rel, fi.qualname, norm(t), f"bond line: the bonds are numbered {first}, the format numbers them from 1", line=t.lineno))
     ok = {str(e) for e in ends} == bond_end_pos and len(ends) == 2
     res.inst(fi.fq, f"bond line: endpoints (label + 1) are tokens {ends}; reader reads {sorted(bond_end_pos)}", "ok" if ok else "fail")
     if not ok:
